@@ -116,7 +116,7 @@ contract(
 contract(
     id="structtag.decode", func=CT + "StructTag.<locals>.StructTag._decode", call="T.decode(buffer)",
     params={"data": P.bytes(len=16), "rest": P.bytes()}, setup=[f"T = {UDT}", "buffer = io.BytesIO(data + rest)"],
-    ensures=[f"result == spec.logix.udt_view({LAYOUT}, {{'__host'}}, data)", "buffer.read() == rest"], props=["C01", "C07", "C06"])
+    ensures=[f"same(result, spec.logix.udt_view({LAYOUT}, {{'__host'}}, data))", "buffer.read() == rest"], props=["C01", "C07", "C06"])
 contract(
     id="structtag.decode.short", func=CT + "StructTag.<locals>.StructTag._decode", call="T.decode(data)",
     params={"data": P.bytes(maxlen=15)}, setup=[f"T = {UDT}"], ensures=["False"],
